@@ -61,6 +61,11 @@ class Tr:
         self.rule = None                    # name of the parameter holding one row of rml_df (fields -> `rule.<field>`)
         self.input_cols = {}                # column name -> lean variable, for columns produced by an earlier call
         self.sigs = {}                      # callee name -> (python parameter names, default nodes)
+        self.rules2 = {}                    # further variables holding a row of rml_df -> lean name (e.g. the parent rule)
+        self.at_index = None                # row variable `i` of the iterrows loop whose body is translated
+        self.at_frames = set()              # source text of the frames `<frame>.at[i, col]` may address
+        self.at_written = set()
+        self.opt_fields = set()             # rule fields that can be NaN and are only read through str()
 
     # ---- names ----------------------------------------------------------------------------------
     def v(self, name):
@@ -79,6 +84,12 @@ class Tr:
     def ty(self, e):
         if isinstance(e, ast.Name) and e.id in self.types:
             return self.types[e.id]
+        if isinstance(e, ast.Constant) and isinstance(e.value, bool):
+            return 'bool'
+        if isinstance(e, ast.Constant) and isinstance(e.value, int):
+            return 'nat'
+        if isinstance(e, ast.BinOp) and isinstance(e.op, ast.Add) and self.ty(e.left) == 'nat':
+            return 'nat'
         if isinstance(e, ast.Call) and isinstance(e.func, ast.Attribute) and e.func.attr == 'split':
             return 'list'
         if isinstance(e, ast.Call) and ast.unparse(e.func) == 're.findall':
@@ -109,10 +120,12 @@ class Tr:
                 if isinstance(p, ast.Constant):
                     parts.append(lean_str(p.value))
                 elif isinstance(p, ast.FormattedValue) and p.conversion == -1 and p.format_spec is None:
-                    parts.append(self.expr(p.value))
+                    parts.append(f'(Model.natStr {self.expr(p.value)})' if self.ty(p.value) == 'nat' else self.expr(p.value))
                 else:
                     raise Fail('f-string with conversion / format spec')
             return '(' + ' ++ '.join(parts) + ')' if parts else lean_str('')
+        if isinstance(e, ast.BinOp) and isinstance(e.op, ast.Add) and self.ty(e.left) == 'nat':
+            return f'({self.expr(e.left)} + {self.expr(e.right)})'
         if isinstance(e, ast.BinOp) and isinstance(e.op, ast.Add):
             return '(' + ' ++ '.join(self.expr(p) for p in flat_add(e)) + ')'
         if isinstance(e, ast.Subscript):
@@ -134,7 +147,28 @@ class Tr:
             return self.call(e)
         raise Fail(f'expression {ast.unparse(e)[:60]}')
 
+    def at_col(self, e):
+        """`<df>.at[i, 'col']` for the row variable `i` of the enclosing iterrows loop -> column name, else None"""
+        if isinstance(e, ast.Subscript) and isinstance(e.value, ast.Attribute) and e.value.attr == 'at' and self.at_index \
+                and isinstance(e.slice, ast.Tuple) and len(e.slice.elts) == 2 and isinstance(e.slice.elts[0], ast.Name) \
+                and e.slice.elts[0].id == self.at_index and isinstance(e.slice.elts[1], ast.Constant) \
+                and isinstance(e.slice.elts[1].value, str) and e.slice.elts[1].value.isidentifier() \
+                and ast.unparse(e.value.value) in self.at_frames:
+            return e.slice.elts[1].value
+        return None
+
     def subscript(self, e):
+        c = self.at_col(e)
+        if c is not None:
+            if c in self.at_written:
+                raise Fail(f'cell {c} is read after it was written in the same iteration')
+            RULE_FIELDS.setdefault(c, None)
+            return f'rule.{c}'
+        if isinstance(e.value, ast.Name) and e.value.id in self.rules2:
+            if not (isinstance(e.slice, ast.Constant) and isinstance(e.slice.value, str) and e.slice.value.isidentifier()):
+                raise Fail(f'rule field {ast.unparse(e.slice)[:40]}')
+            RULE_FIELDS.setdefault(e.slice.value, None)
+            return f'{self.rules2[e.value.id]}.{e.slice.value}'
         if self.rule and isinstance(e.value, ast.Name) and e.value.id == self.rule:
             if not (isinstance(e.slice, ast.Constant) and isinstance(e.slice.value, str) and e.slice.value.isidentifier()):
                 raise Fail(f'rule field {ast.unparse(e.slice)[:40]}')
@@ -148,7 +182,7 @@ class Tr:
                 return c
             n = f'r_{self.nlift}'
             self.nlift += 1
-            self.pending.append((n, self.expr(e.slice)))
+            self.pending.append((n, 'rowGet row ' + self.expr(e.slice)))
             return n
         if isinstance(e.slice, ast.Constant) and e.slice.value == 0 and self.ty(e.value) == 'list':
             return f'(List.headD {self.expr(e.value)} [])'
@@ -163,7 +197,19 @@ class Tr:
         kws = {k.arg: k.value for k in e.keywords}
         if isinstance(f, ast.Name):
             if f.id == 'str' and len(e.args) == 1 and not kws:
-                return self.expr(e.args[0])
+                a = e.args[0]
+                if self.ty(a) == 'nat':
+                    return f'(Model.natStr {self.expr(a)})'
+                if isinstance(a, ast.Subscript) and isinstance(a.value, ast.Name) and a.value.id == self.rule \
+                        and isinstance(a.slice, ast.Constant) and a.slice.value in self.opt_fields:
+                    RULE_FIELDS[a.slice.value] = 'opt'
+                    return f'(pyStrOpt rule.{a.slice.value})'
+                return self.expr(a)
+            if f.id == getattr(self, 'opt_call', None) and len(e.args) == 1 and not kws:
+                n = f'r_{self.nlift}'
+                self.nlift += 1
+                self.pending.append((n, f'Gen.Core.{f.id} {self.expr(e.args[0])}'))
+                return n
             if f.id in self.translated and not kws:
                 return '(' + f.id + ' ' + ' '.join(self.expr(a) for a in e.args) + ')'
             if f.id == 'remove_non_printable_characters' and len(e.args) == 1 and not kws:
@@ -219,9 +265,17 @@ class Tr:
                 return f'(Py.join {self.expr(recv)} {self.expr(e.args[0])})'
             if m == 'strip' and not e.args and not kws:
                 return f'(Py.strip {self.expr(recv)})'
+            if m == 'startswith' and len(e.args) == 1 and not kws:
+                return f'(Py.startsWith {self.expr(recv)} {self.expr(e.args[0])})'
         raise Fail(f'call {ast.unparse(e)[:80]}')
 
     def cond(self, t):
+        if isinstance(t, ast.UnaryOp) and isinstance(t.op, ast.Not):
+            return f'(¬ {self.cond(t.operand)})'
+        if isinstance(t, ast.Name) and self.types.get(t.id) == 'bool':
+            return f'({self.v(t.id)} = true)'
+        if isinstance(t, ast.Call) and isinstance(t.func, ast.Attribute) and t.func.attr == 'startswith':
+            return f'({self.expr(t)} = true)'
         if isinstance(t, ast.BoolOp) and isinstance(t.op, ast.And):
             return '(' + ' ∧ '.join(self.cond(v) for v in t.values) + ')'
         if isinstance(t, ast.Compare) and len(t.ops) == 1:
@@ -254,10 +308,22 @@ class Tr:
         out = []
         for st in body:
             for n in ast.walk(st):
+                if isinstance(n, ast.AugAssign):
+                    if not (isinstance(n.target, ast.Name) and isinstance(n.op, ast.Add) and self.types.get(n.target.id) == 'nat'):
+                        raise Fail(f'augmented assignment {ast.unparse(n)[:40]}')
+                    if self.v(n.target.id) not in [x for x, _ in out]:
+                        out.append((self.v(n.target.id), 'nat'))
                 if isinstance(n, ast.Assign):
                     if len(n.targets) != 1:
                         raise Fail('multiple assignment targets')
                     t = n.targets[0]
+                    if isinstance(t, ast.Name) and t.id in self.rules2:
+                        continue
+                    if self.at_col(t) is not None:
+                        c = 'o_' + self.at_col(t)
+                        if c not in [x for x, _ in out]:
+                            out.append((c, 'str'))
+                        continue
                     if isinstance(t, ast.Name) and t.id == self.frame and isinstance(n.value, ast.Call) \
                             and isinstance(n.value.func, ast.Name) and n.value.func.id in self.sigs:
                         call = n.value
@@ -284,14 +350,21 @@ class Tr:
         return out
 
     def target(self, t):
+        c = self.at_col(t)
+        if c is not None:
+            return 'o_' + c
         return self.v(t.id) if isinstance(t, ast.Name) else self.col(t.slice, create=True)
 
     def mods(self, body):
         got = set()
         for st in body:
             for n in ast.walk(st):
+                if isinstance(n, ast.AugAssign):
+                    got.add(self.target(n.target))
                 if isinstance(n, ast.Assign):
                     t = n.targets[0]
+                    if isinstance(t, ast.Name) and t.id in self.rules2:
+                        continue
                     if isinstance(t, ast.Name) and t.id == self.frame and isinstance(n.value, ast.Call) \
                             and isinstance(n.value.func, ast.Name) and n.value.func.id in self.sigs:
                         pnames, _ = self.sigs[n.value.func.id]
@@ -367,10 +440,19 @@ class Tr:
         if isinstance(st, ast.Assign) and isinstance(st.targets[0], ast.Name) and st.targets[0].id == self.frame \
                 and isinstance(st.value, ast.Call) and isinstance(st.value.func, ast.Name) and st.value.func.id in self.sigs:
             return self.frame_call(st, ind)
+        if isinstance(st, ast.AugAssign):
+            return [f'{ind}let {self.v(st.target.id)} := ({self.v(st.target.id)} + {self.expr(st.value)})'], False
+        if isinstance(st, ast.Assign) and isinstance(st.targets[0], ast.Name) and st.targets[0].id in self.rules2:
+            want = self.rules2_binding.get(st.targets[0].id)
+            if want is None or ast.unparse(st.value) != want:
+                raise Fail(f'binding of {st.targets[0].id}: {ast.unparse(st.value)[:60]}')
+            return [], False
         if isinstance(st, ast.Assign):
             self.pending = []
             rhs = self.expr(st.value)
-            pre = [f'{ind}let {n} ← rowGet row {k}' for n, k in self.pending]
+            if self.at_col(st.targets[0]) is not None:
+                self.at_written.add(self.at_col(st.targets[0]))
+            pre = [f'{ind}let {n} ← {k}' for n, k in self.pending]
             m = bool(self.pending)
             self.pending = []
             return pre + [f'{ind}let {self.target(st.targets[0])} := {rhs}'], m
@@ -379,8 +461,12 @@ class Tr:
             c = self.cond(st.test)
             if self.pending:
                 raise Fail('row lookup inside a condition')
+            w0 = set(self.at_written)
             tl, tm, tr = self.block(st.body, ind + '    ')
+            w1 = set(self.at_written)
+            self.at_written = set(w0)
             el, em, er = self.block(st.orelse, ind + '    ')
+            self.at_written |= w1
             ms = self.mods([st])
             monadic = tm or em
             if not ms:
@@ -393,7 +479,8 @@ class Tr:
             if monadic:
                 t = tl if tr else tl + [f'{ind}    pure {tp}']
                 e = el if er else el + [f'{ind}    pure {tp}']
-                return [f'{ind}let {tp} ←', f'{ind}  if {c} then do'] + t + [f'{ind}  else do'] + e, True
+                e[-1] += ')'      # a parenthesised TERM-level `if`: no join point, the continuation is not copied into the branches
+                return [f'{ind}let {tp} ← (', f'{ind}  if {c} then do'] + t + [f'{ind}  else do'] + e, True
             return [f'{ind}let {tp} :=', f'{ind}  if {c} then'] + tl + [f'{ind}    {tp}', f'{ind}  else'] + el + [f'{ind}    {tp}'], False
         if isinstance(st, ast.For):
             if not isinstance(st.target, ast.Name) or st.orelse:
@@ -439,8 +526,8 @@ class Tr:
         raise Fail(f'statement {ast.unparse(st)[:60]}')
 
 
-LEAN_TY = {'str': 'Str', 'list': 'List Str', 'nat': 'Nat', 'rule': 'PyRule'}
-DEFAULT = {'str': '[]', 'list': '[]'}
+LEAN_TY = {'str': 'Str', 'list': 'List Str', 'nat': 'Nat', 'rule': 'PyRule', 'bool': 'Bool'}
+DEFAULT = {'str': '[]', 'list': '[]', 'nat': '0', 'bool': 'false'}
 
 
 def translate(fn, env, name, params, monad=None, frame=None, translated=(), ret_col=None, extra=None, raise_as=None, rty='Str',
